@@ -49,7 +49,26 @@ func decrypt(key *[32]byte, c []byte) ([]byte, error) {
 		// fallback to the old implementation
 		return crypto_secretbox_open_easy(c[24:], c[0:24], key)
 	}
+	if len(m) > 64-crypto_secretbox_zerobytes && !nonceMatches(key, m, nonce[:]) {
+		// The old implementation authenticates exactly like secretbox but
+		// restarts the key stream after the first 32 message bytes, so a box
+		// it sealed passes secretbox.Open and decrypts to garbage beyond
+		// byte 32. The nonce is derived from the plaintext: use it to tell
+		// which of the two decryptions is the message.
+		if old, err := crypto_secretbox_open_easy(c[24:], c[0:24], key); err == nil && nonceMatches(key, old, nonce[:]) {
+			return old, nil
+		}
+	}
 	return m, nil
+}
+
+// nonceMatches reports whether n is the nonce encrypt() derives for message.
+func nonceMatches(key *[32]byte, message []byte, n []byte) bool {
+	combined := make([]byte, 0, len(message)+len(key))
+	combined = append(combined, message...)
+	combined = append(combined, key[:]...)
+	want, err := nonce(combined, encryptNonceLen)
+	return err == nil && string(want[:encryptNonceLen]) == string(n)
 }
 
 func nonce(message []byte, nonce_len int) ([]byte, error) {
